@@ -6,6 +6,24 @@ import os
 
 V = os.path.dirname(os.path.dirname(os.path.abspath(__file__)))
 D = {
+ "C07-3": ("src/bash.rs write_literals no longer quotes; two of its three callers quote beforehand, write_subword_shape_wrapper_fn passes the raw texts",
+           "two within-word expressions of identical shape (they share a table-reading function) with a literal containing a character special to bash"),
+ "C10-3": ("src/bash.rs: the per-automaton LookupTables are built by worker threads in batches of 256 and collected over a channel into the HashMap that is iterated afterwards",
+           "more than 256 distinct within-word automata, several of the same shape; bash output only"),
+ "C11-3": ("src/check.rs from_grammar: the set of 'defined' nonterminals is built from all definition statements, @shell ones included",
+           "PATH or DIRECTORY with an @shell definition for another shell and no plain definition"),
+ "C12-3": ("src/bash.rs emitted __complgen_match: glob test replaced by a substring comparison with -gt instead of -ge, so a candidate equal to the typed text is dropped",
+           "within-word values where one is a prefix of another and the typed word is exactly the shorter value"),
+ "C13-3": ("src/check.rs do_check_subword_spaces: early return after pushing the reference span for definitions that are a lone command or literal (the pop is skipped)",
+           "a spaces-inside-a-word mistake plus an earlier reference to a nonterminal defined as a single command or literal"),
+ "C14-3": ("src/parse.rs comment(): a comment stops at the first carriage return or line feed",
+           "a # comment containing a carriage return that is not followed by a line feed"),
+ "C15-3": ("src/check.rs from_grammar: the specialisation of the definition bodies moved after the snapshot of the unused specialisations",
+           "a definition for the target shell that is referred to only from definition bodies"),
+ "C16-3": ("src/dfa.rs do_to_dot numbers the within-word clusters by intern-pool index instead of get_subwords order",
+           "two within-word automata, the one written later in the text reachable earlier in the automaton"),
+ "C17-3": ("src/bash.rs write_match_transitions: `local -A command_transitions=()` no longer emitted for an automaton without command transitions (the caller's table shows through)",
+           "a top-level command, a word containing a command, and a literal-only word whose state number is also a top-level command state, typed with a tail no literal continues"),
  "C01-3": ("src/bash.rs emitted top-level walk: `local command_candidates_seen=0` moved out of the per-word loop, so the flag survives from one word to the next",
            "a top-level command with candidates earlier on the line, then a foreign last complete word at a state where no command is expected"),
  "C03-3": ("src/dfa.rs DFAInternPool::intern minimises its argument again; minimisation is not idempotent once the start state has been renumbered to the dead-state id 0",
